@@ -223,7 +223,7 @@ theorem rel_init : Rel W.init S.init := by
 
 /-! ### Helper lemmas on rows -/
 
-theorem cfirst_isSome {srows : List SRow} {r : RId} {w : Nat} {rest : List Nat} (a : Ans)
+theorem cfirst_isSome {srows : List SRow} {r : RId} {w : Nat} {rest : List Nat} (a : Fill)
     (ho : owedBy srows r = w :: rest) : ∃ rows', cfirst r a srows = some rows' := by
   induction srows with
   | nil => simp [owedBy] at ho
@@ -297,7 +297,7 @@ theorem mem_accepting {closed : RId → Bool} {l : List RId} {r : RId} :
 
 /-- The row a write creates owes exactly the open linked readers. -/
 theorem newSlots_owes (closed : RId → Bool) (l : List RId) (r : RId) :
-    owesS (l.map fun x => (x, if closed x then some Ans.none else none)) r = (decide (r ∈ l) && !closed r) := by
+    owesS (l.map fun x => (x, if closed x then some none else none)) r = (decide (r ∈ l) && !closed r) := by
   induction l with
   | nil => simp [owesS]
   | cons x xs ih =>
@@ -310,7 +310,7 @@ theorem newSlots_owes (closed : RId → Bool) (l : List RId) (r : RId) :
       simp [this, h2]
 
 def newSRow (s : S) : SRow :=
-  { wid := s.nextW, slots := s.linked.map fun r => (r, if s.closed r then some Ans.none else none) }
+  { wid := s.nextW, slots := s.linked.map fun r => (r, if s.closed r then some none else none) }
 
 
 theorem arrive_ret (s : S) (w : Nat) (r : RId) (a : Ans) : ∃ b, (arrive s w r a).2.ret = .ok b := by
@@ -324,7 +324,7 @@ theorem arrive_ret (s : S) (w : Nat) (r : RId) (a : Ans) : ∃ b, (arrive s w r 
 
 /-! ### An answer or drop notice arriving -/
 
-theorem credit_mem {w : Nat} {r : RId} {a : Ans} {rows rows' : List SRow} (h : credit w r a rows = some rows') :
+theorem credit_mem {w : Nat} {r : RId} {a : Fill} {rows rows' : List SRow} (h : credit w r a rows = some rows') :
     w ∈ owedBy rows r := by
   induction rows generalizing rows' with
   | nil => simp [credit] at h
@@ -418,8 +418,8 @@ theorem sim_arrive {m : W} {s : S} (w g : Nat) (r : RId) (a : Ans)
   rotate_left
   · have hne : ¬ some g = some l := by simpa using hg
     rw [if_neg hne] at hq
-    have hcr : credit w r a s.rows = none := by
-      cases hc : credit w r a s.rows with
+    have hcr : credit w r (some a) s.rows = none := by
+      cases hc : credit w r (some a) s.rows with
       | none => rfl
       | some rows' => exact absurd (credit_mem hc) hq
     have hlg : (l != g) = true := by simpa using fun e => hg e.symm
@@ -431,9 +431,9 @@ theorem sim_arrive {m : W} {s : S} (w g : Nat) (r : RId) (a : Ans)
   rw [if_pos rfl] at hq ⊢
   obtain ⟨ob', hl⟩ := hq
   have hlg : (g != g) = false := by simp
-  have hmf := mfill_cfirst a hrows.pref hnd hi
-  obtain ⟨rows', hcf⟩ := cfirst_isSome a hl
-  have hcr := credit_eq_cfirst a hrows.wids hl
+  have hmf := mfill_cfirst (some a) hrows.pref hnd hi
+  obtain ⟨rows', hcf⟩ := cfirst_isSome (some a) hl
+  have hcr := credit_eq_cfirst (some a) hrows.wids hl
   rw [hcf] at hcr
   rw [hcf] at hmf
   obtain ⟨e1, e2, e3, e4⟩ := cfirst_effect hcf
@@ -448,17 +448,15 @@ theorem sim_arrive {m : W} {s : S} (w g : Nat) (r : RId) (a : Ans)
     cases hih : indexOfHead i (s.rows.map SRow.cells) with
     | panic => exact absurd hih (indexOfHead_ne_panic _ _)
     | notFound =>
-      have := indexOfHead_notFound a hih
+      have := indexOfHead_notFound (some a) hih
       rw [hmf] at this; simp at this
     | found h =>
-      obtain ⟨mrows', hset, hmf', hne0⟩ := indexOfHead_found a hih
+      obtain ⟨mrows', hset, hmf', hne0⟩ := indexOfHead_found (some a) hih
       rw [hmf] at hmf'
       simp only [Option.map_some, Option.some.injEq] at hmf'
       subst hmf'
       by_cases h0 : h = 0
-      · have hne : ∀ row ∈ rows'.map SRow.cells, row ≠ [] :=
-          cells_nonempty_of_readers (e3 ▸ readers_nonempty hrows.chain hhead)
-        have hfl := (flush_false_eq _ hne).trans (mflush_eq rows')
+      · have hfl := mflush_eq rows'
         subst h0
         simp [receive, receiveWith, hmd, hi', hlk, hlg, hro, hih, hset, hfl]
       · obtain ⟨row, rest, rest', hre1, _, hre'⟩ := hne0 h0
@@ -580,8 +578,8 @@ theorem sim_unlink {m : W} {s : S} (hR : Rel m s) (r : RId) :
   have hrd := filter_ne_eq_eraseIdx hi hI.nodup
   have e1 : Writer.step m (.unlink r) =
       ({ m with readers := m.readers.eraseIdx i, links := m.links.eraseIdx i,
-                rows := (Writer.flush true (eraseCol i m.rows)).1 },
-       Out.mk (.ok true) (Writer.flush true (eraseCol i m.rows)).2 []) := by
+                rows := (Writer.flush (eraseCol i m.rows)).1 },
+       Out.mk (.ok true) (Writer.flush (eraseCol i m.rows)).2 []) := by
     simp [Writer.step, stepWith, hmd, hi', hill]
   have e2 : WriterSpec.step s (.unlink r) =
       ({ s with linked := s.linked.filter (· ≠ r), rows := (WriterSpec.flush (s.rows.map (·.drop r))).1,
